@@ -150,6 +150,100 @@ def readback_lemmas(ctx, eng, ce):
     return lem
 
 
+def stability_lemmas(ctx, eng, ce):
+    """C18: a register's read-back value is a function of what was written, not of time: one machine cycle of the APU
+    (the real EndMachineCycle: timers, frame sequencer, length, envelope, sweep, sampling) leaves the value read from every
+    register NR10-NR51 and the non-status bits of NR52 unchanged, from every state satisfying the APU invariant"""
+    from engine import vsl
+    lem = Lem()
+    st0, w, a = audio_world(ctx, eng, ce, with_outputs=True)
+    # the four clock ticks of the machine cycle are taken by contract: their frame (assigns) clause, discharged against the
+    # real tickClock / tickFrameSequencer bodies by the two tasks beside this lemma, is what carries the property
+    eng.modular = {ctx.prog.func(A + "tickClock").name}
+    ty = ce.ev.ty_of(ctx.prog.func(A + "EndMachineCycle").params[0]["t"])
+    st0.pc.append(ce.ev.as_bool(ce.ev.eval(vsl.parse("apuOK(a) && a.ticks >= 1 && a.ticks < 0x3fffffffffffff00 && a.frameSeqTicks < 512"), {"a": vsl.TV(a, ty)}, st0, st0)))
+
+    def read(st, reg):
+        val = None
+        for (s2, r) in call(ctx, eng, st.fork(), A + "Read" + reg, [a]):
+            val = r if val is None else z3.If(s2.pcond(), r, val)
+        return val
+    regs = list(MASKS) + ["NR52"]
+    eng.obligs = []
+    before = {reg: read(st0, reg) for reg in regs}
+    viol = {reg: [] for reg in regs}
+    n = 0
+    for (s1, _) in call(ctx, eng, st0.fork(), A + "EndMachineCycle", [a]):
+        n += 1
+        for reg in regs:
+            after = read(s1, reg)
+            if reg == "NR52":
+                viol[reg].append(z3.And(s1.pcond(), (after & 0xf0) != (before[reg] & 0xf0)))
+            else:
+                viol[reg].append(z3.And(s1.pcond(), after != before[reg]))
+    k = 0
+    for ob in eng.obligs:
+        if ob.kind == "requires":
+            k += 1
+            lem.add("lemma:stable:tickClock-precondition-at-call-%d" % k, ob.viol)
+    for reg in regs:
+        lem.add("lemma:stable:%s-unchanged-by-a-machine-cycle" % reg, z3.Or(*viol[reg]) if viol[reg] else z3.BoolVal(True))
+    lem.covers.append(("lemma:stable#cover", st0.pcond()))
+    lem.notes.append("EndMachineCycle outcomes: %d" % n)
+    lem.stats = dict(eng.stats)
+    return lem
+
+
+def is_scalar_arg(x):
+    return z3.is_expr(x)
+
+
+def exported_audio_methods(ctx):
+    out = []
+    for f in ctx.prog.funcs.values():
+        if f.pkg and f.pkg.endswith("/gameboy/audio") and f.blocks and f.short.startswith("(*audio.Audio).") and "$" not in f.short:
+            nm = f.short.split(").", 1)[1]
+            if nm[:1].isupper():
+                out.append(f.short)
+    return sorted(out)
+
+
+def invariant_task(fn):
+    """the APU representation invariant (apuOK: every field within the range its register bits allow, which the sample bound
+    and the no-panic sweep rely on) and the clock-counter invariant are preserved by fn - an entry point the bus or the frame
+    loop can call in any order - from every state satisfying them and for every argument"""
+    def run(ctx, eng, ce):
+        from engine import vsl
+        lem = Lem()
+        st, w, a = audio_world(ctx, eng, ce, with_outputs=fn.endswith("EndMachineCycle"))
+        f = ctx.prog.func(fn)
+        eng.modular = {k for k, cc in ce.contracts.items() if cc.assigns is not None and not cc.inline} - {f.name}
+        ty = ce.ev.ty_of(f.params[0]["t"])
+        INV = "apuOK(a) && a.ticks >= 1 && a.frameSeqTicks < 512"
+        st.pc.append(ce.ev.as_bool(ce.ev.eval(vsl.parse(INV + " && a.ticks < 0x3fffffffffffff00"), {"a": vsl.TV(a, ty)}, st, st)))
+        args = [a] + [w.sym(prm["t"], prm["name"], "arg:" + prm["name"], ()) for prm in f.params[1:]]
+        eng.obligs = []
+        viol = []
+        pre = st.fork()
+        outs = eng.call_function(st.fork(), f.name, args)
+        for (s1, _) in outs:
+            ok = ce.ev.as_bool(ce.ev.eval(vsl.parse(INV), {"a": vsl.TV(a, ty)}, s1, s1))
+            viol.append(z3.And(s1.pcond(), z3.Not(ok)))
+        ob = lem.add("lemma:invariant-preserved:%s" % fn, z3.Or(*viol) if viol else z3.BoolVal(False))
+        if outs and all(is_scalar_arg(x) for x in args[1:]):
+            from engine.replay2 import script_info
+            ob.info = script_info(w, pre, "github.com/scottyw/tetromino/gameboy/audio", [(fn, args)], [None], [s for s, _ in outs], [a.obj])
+        k = 0
+        for ob in eng.obligs:
+            if ob.kind == "requires":
+                k += 1
+                lem.add("lemma:invariant-preserved:%s:callee-precondition-%d" % (fn, k), ob.viol)
+        lem.covers.append(("lemma:invariant-preserved:%s#cover" % fn, z3.Or(*[s.pcond() for s, _ in outs]) if outs else z3.BoolVal(False)))
+        lem.stats = dict(eng.stats)
+        return lem
+    return LemmaTask("invariant-preserved:" + fn, run, [fn])
+
+
 # ------------------------------------------------------------------ C19
 def chan_funcs(ctx):
     """all functions of package audio that can run after construction"""
